@@ -106,7 +106,11 @@ def run(tier, seed):
                 for bl in loops:
                     b0 = M.strip(bl.init, ("bitcast",))
                     same = b0 == P or M.equiv(b0, P) or (M.match(("gep", ("bind", "x"), [0, 0]), bl.init, {}) or {}).get("x") == (M.match(("gep", ("bind", "x"), [0, 0]), args[0], {}) or {"x": None}).get("x")
-                    if not (bl.kind == "ptr" and same):
+                    if bl.kind == "index":
+                        # index walk over the string: s[0], s[1], ... from the start
+                        bb = M.strip(bl.base, ("bitcast",)) if bl.base is not None else None
+                        same = bl.start_ok and bb is not None and (bb == P or M.equiv(bb, P))
+                    if not same:
                         continue
                     if not (bl.step_ok and bl.exit == "nul" and bl.unvisited_ok):
                         why = "the loop over the printed string does not run byte by byte up to the terminating NUL (exit=%s)" % bl.exit
